@@ -115,24 +115,17 @@ claim("C13",
       "(exercised by the code but not stated as a postcondition), server.Watch.",
       "DESIGN.md §6 C13")
 claim("C09",
-      "Proof, for every element/key type (the code is verified generically over its type parameters), of the two containers the reconcile queue is built on: "
-      "SliceSet (the in-flight set) never holds an item twice, Add succeeds iff the item was absent and keeps all other items, Remove succeeds iff the item was "
-      "present and leaves it absent; PriorityQueue (the pending queue) never holds a key twice - Push replaces or keeps the queued entry of a key, reports "
-      "'added' iff the key was new, changes the length accordingly, Pop removes exactly one entry - and Peek/Len are panic-free.",
-      COMMON + "Only the containers are under contract. Not decided here: the event loop of queue.Run that combines them (per-item exclusion across "
-      "Put/Get/Release, coalescing to the most recent value, the reported length), ordering by release time inside PriorityQueue (the results of "
-      "slices.IndexFunc/BinarySearchFunc for the closures used are assumptions at the call sites), timers and backoff (time).",
+      "Proof of per-item exclusion in the reconcile queue's event loop, for all interleavings of Put / Get / Release and every key/value type (generic code verified "
+      "over its type parameters): the loop invariant of queue.Run says that no key is both in flight (onHold) and pending (pqueue), that neither container holds a "
+      "key twice and that the two containers stay separate objects; it is established on entry and preserved by every select case (hand-out, timer, release with "
+      "or without requeue and with a parked notification, put of a fresh or an in-flight key). Underneath, the containers: SliceSet never holds an item twice, "
+      "Add/Remove are exact; PriorityQueue never holds a key twice, Push replaces or keeps the entry of a key, reports 'added' iff the key was new, every key "
+      "afterwards was there before or is the pushed one, Pop removes exactly the head; Peek/Len are panic-free.",
+      COMMON + "Not decided: coalescing to the most recent *value*, that a parked notification is re-delivered after release (a liveness flavour: the code path "
+      "is under the invariant, the 'eventually delivered' is not), the reported length (atomic counter, not modelled), ordering by release time inside "
+      "PriorityQueue (results of slices.IndexFunc/BinarySearchFunc for the closures used are assumptions at the call sites), timers and backoff (time not "
+      "modelled; ResettableTimer trusted frames), qruntime.runReconcile backoff policy.",
       "DESIGN.md §6 C09")
-claim("C14",
-      "Proof of the selector semantics as one function: Labels.Matches is pinned down operator by operator for every label map and term (existence, equality, "
-      "set membership, lexical < and <=, inversion, missing labels never satisfy a comparison and satisfy an inverted non-comparison, empty value lists), "
-      "LabelQuery.Matches is exactly the AND of its terms and LabelQueries.Matches exactly the OR of its queries (loops with invariants; empty query and empty "
-      "list match everything); the server-side translation of label queries applies inversion per term (C11 assertions).",
-      COMMON + "Numeric comparison with unit suffixes (compare.GetNumbers) is string parsing and trusted; IDQuery.Matches (regular expressions) trusted. Not under "
-      "contract: that List and the filtered watch apply this function to every resource and rewrite events when the match status changes (collection.List sorts "
-      "its result with sort.Slice, the watch filter closure is trusted), the runtime cache list, the client-side query translation. An operator outside the "
-      "enumeration makes Matches panic by design (may_panic).",
-      "DESIGN.md §6 C14")
 NOT_BUILT = "not built yet in this round (engine in progress); see DESIGN.md §6 for the planned contracts"
 na("C05", "'every committed change eventually makes the controller reconcile' is a liveness statement over schedules and channel deliveries; its safety skeleton "
    "(a non-blocking send on a capacity-1 channel keeps one wake-up pending; the dedup map bounced between two goroutines) is about channel semantics and goroutine "
